@@ -544,9 +544,49 @@ func streamServiceArea(c *ctx) {
 			}
 			areas = append(areas, a)
 		}
+		// half of the restrictions hold their TAC lists the way a caller with one TAC pool does: every
+		// area is a window pool[i:j] (spare capacity reaching into the other areas), the areas placed in
+		// the pool in a permuted order and followed by entries the restriction does not refer to
+		var pool, pool0 []string
+		if len(areas) > 0 && c.r.Rng.Intn(2) == 0 {
+			order := make([]int, len(areas))
+			for i := range order {
+				order[i] = i
+			}
+			for i := len(order) - 1; i > 0; i-- {
+				j := c.r.Rng.Intn(i + 1)
+				if c.r.Rng.Intn(3) > 0 { // mostly keep the first area in front
+					j = 1 + c.r.Rng.Intn(i)
+					if i < 1 || j > i {
+						continue
+					}
+				}
+				order[i], order[j] = order[j], order[i]
+			}
+			offs := make([]int, len(areas))
+			for _, ai := range order {
+				offs[ai] = len(pool)
+				pool = append(pool, areas[ai].Tacs...)
+			}
+			pool = append(pool, "a5a5a5", "a5a5a5", "a5a5a5")
+			pool = append(make([]string, 0, len(pool)), pool...)
+			pool0 = append([]string(nil), pool...)
+			for ai := range areas {
+				areas[ai].Tacs = pool[offs[ai] : offs[ai]+len(areas[ai].Tacs)]
+			}
+		}
 		sar := models.ServiceAreaRestriction{RestrictionType: rt, Areas: areas, MaxNumOfTAs: 3}
 		out, x := c.serviceArea(p, sar)
 		in := fmt.Sprintf("%s-%s %s %v", p.Mcc, p.Mnc, rt, areas)
+		if pool != nil {
+			in += fmt.Sprintf(" (areas are windows of one pool %v)", pool0)
+			for i := range pool {
+				if pool[i] != pool0[i] {
+					c.fail("nasConvert.PartialServiceAreaListToNas", "caller-list-overwritten", in, fmt.Sprintf("the caller's TAC pool reads %v after the call", pool))
+					break
+				}
+			}
+		}
 		if c.failIfAbnormal(x, "nasConvert.PartialServiceAreaListToNas", in) || !inDomain {
 			return
 		}
